@@ -126,6 +126,46 @@ CLAIMED = {
         note=("Partial by nature: real preemption inside C extensions / free-threaded builds, singledispatch's cache, zipfile internals cannot be exhibited. Trusted: AST scan (fail-closed on unknown patterns only as far as listed), "
               "thread harness."),
         ref="DESIGN.md section 4 C20"),
+    "C04": dict(
+        technique="Coq model of the codec (pval, get_state, construct_val) with refuted-corruption theorems + schema/value correspondence",
+        text=("coq/props/C04.v over an executable Gallina model of every *_get_state function and every _construct (PyVal/CodecDump/CodecLoad, reusing the get_tree model): "
+              "C04_faithful_or_refuses_partial is a theorem on scalars, nested list/tuple/set, slices and names with tree-shaped ids under the decidable guard c04_ok; one refuted theorem (vm_compute witness) per "
+              "corruption class = open findings D08 (colliding keys), D09 (frozenset/deque payload), D10 (rank>=2 object arrays), D26 (property values), C04-F1..F4 (scalar / defaultdict / tuple subclasses, surrogate pairs); "
+              "C04_dump_pure holds by type. Everything else in the guard (dict family, arrays, user classes, sharing) is correspondence-only: the model's normalised schema AND its predicted loaded value -- including the "
+              "predicted corruption or exception class -- are compared with /repo on >= 340 generated values per run, and c04_ok => faithful-or-refuses is evaluated per case; dump purity by fingerprint before/after."),
+        note=("Trusted: harness/pval_emit.py (object -> pval term), absval/canon, numpy/scipy/json float codecs as opaque tokens, zipfile. D07 (bool keys) and D25 (defaultdict keys) repaired in /repo."),
+        ref="DESIGN.md section 4 C04"),
+    "C05": dict(
+        technique="Coq round-trip theorem on a fragment of the supported grammar + per-case vm_compute of the model round trip + implementation cycles",
+        text=("coq/props/C05.v: C05_roundtrip_partial (structural induction: get_tree + construct_val on the state get_state emits returns exactly v) and C05_stable_partial (k cycles) for scalars, nested "
+              "list/tuple/set, slices, function and type names with pairwise distinct ids; the full statement is kept visible; missing from the theorem: dict family, member-bearing leaves, object arrays, shared objects "
+              "(need the global memo first-occurrence invariant and show_Z injectivity). Full grammar: per generated value `supported v` and 'model loads(dumps(v)) has the abstraction of v' are evaluated by vm_compute, and "
+              "the model's schema/value are compared with /repo; k-fold dump/load cycles and RNG stream continuation are run on the implementation."),
+        note=("Trusted: as C04; floats identified with their repr text; numpy/scipy codecs opaque."),
+        ref="DESIGN.md section 4 C05"),
+    "C06": dict(
+        technique="Coq proof over a heap-walk model with an adversarial address allocator + state and behaviour correspondence under allocator pressure",
+        text=("coq/props/C06.v (13 theorems, no axioms): for EVERY allocator that never returns a live address, every heap and root on which the dump terminates: ids are injective on visited objects and the memo pins them "
+              "(also as a per-call invariant); two paths end in one loaded object iff they ended in one original object; id-named members <-> array-like objects visited; refuted without pinning (3- and 5-object witnesses); "
+              "schema of the n-ladder >= 2^n (D11). Correspondence-only: that the model is the code -- get_state/clear_memo wrapped from outside (memo holds every handed object by identity), identity partition / member counts of "
+              "original vs loaded on generated DAGs with a churned allocator, and Sharing.predict by vm_compute on the heap abstracted from recorded dumps."),
+        note=("Trusted: CPython lifetime model (live objects have distinct ids); wrappers; absval; the heap abstraction. The real allocator is exercised, not driven adversarially. Open: D11, C06-F1 (masked arrays stored once per reference)."),
+        ref="DESIGN.md section 4 C06"),
+    "C07": dict(
+        technique="Coq reduction theorem + default-trust theorem over the regenerated snapshot + estimator-sweep correspondence (partial)",
+        text=("THEOREM (coq/props/C07.v): output fidelity reduces to state fidelity -- if methods depend only on (class, state) up to iso [hypothesis], the class is importable, states round-trip (C05) and the class honours its own "
+              "__getstate__/__setstate__/__reduce__ contract, then ObjectNode/ReduceNode reassembly gives equal class, iso state, equal outputs; trees whose names are all snapshot defaults audit clean (tree and graph audit). "
+              "CORRESPONDENCE-ONLY (tests, not proof): bit-identical method outputs, params and fitted attributes, get_untrusted_types on all_estimators() x parameter draws x dense/sparse/multi-output data, fitted/unfitted, + compositions."),
+        note=("PARTIAL: sklearn/BLAS/Cython numerical behaviour cannot be modelled; method purity is a hypothesis exercised by bitwise tests on small data. Open: D12 (sparse default trust), C07-F1 (private estimator helpers), "
+              "C07-F2 (negatively strided components_). Fixed in /repo: CyHalfMultinomialLoss dispatch."),
+        ref="DESIGN.md section 4 C07"),
+    "C12": dict(
+        technique="Coq proof of schema well-formedness over the dump model + archive/sink/compression checks on the implementation",
+        text=("coq/props/C12.v: C12_schema_wf (induction over pval, guard no_rank0: root carries protocol and version; every loader-child state has __loader__ in the model's loader set, __class__, __module__, __id__), "
+              "C12_loader_registered (per run, vm_compute over the regenerated registry), C12_sink_indep (by construction), C12_members_exact_refuted (finding C12-F1: a member written for a value whose dict key later collides). "
+              "Members-exact, flat member names and sink/compression independence are checked on every real archive: namelist vs schema file refs, regexes, and a 4 sinks x 8 compression configs product compared after id/uuid normalisation."),
+        note=("Trusted: zipfile (container, codecs); harness normaliser. Open: C12-F1."),
+        ref="DESIGN.md section 4 C12"),
 }
 
 PENDING_REASON = "check not built yet (see DESIGN.md section 8 build order); not claimed in this revision"
